@@ -158,12 +158,22 @@ def path_cases(c, cases):
 
                 class Src:
                     is_app_frame = staticmethod(cfg.is_app_frame)
-                fc = FrameCollector.__new__(FrameCollector)
-                fc._FrameCollector__source = Src()
+                fc = FrameCollector(Src(), None)
                 short, flag = fc.parse_short_name(file)
                 want = file if exp['by'] == 'none' else '/'.join(list(exp['short']) + ['m.py'])
                 if short != want or bool(flag) != bool(exp['app']):
                     bad = 'short path %r (app=%s), expected %r' % (short, flag, want)
+                # the frames of ONE stack are named by one collector, one after the other: what a frame is called does
+                # not depend on the frames named before it
+                for p_ in [x for x in inc + exc + [root] if x]:
+                    if bad:
+                        break
+                    fc2 = FrameCollector(Src(), None)
+                    fc2.parse_short_name(p_ + 'zz.py')
+                    again = fc2.parse_short_name(file)
+                    if (again[0], bool(again[1])) != (short, bool(flag)):
+                        bad = 'named %r (app=%s) after a frame of %szz.py in the same stack, %r (app=%s) on its own' % (
+                            again[0], again[1], p_, short, flag)
         except BaseException as ex:
             bad = 'is_app_frame raised %r' % (ex,)
         c.traces_validated += 1
